@@ -29,7 +29,7 @@ RULE = ('the real AsyncRunner and Interpreter run on real OS threads under a bat
         '(no deadlock); nothing executes after stop() returned. non-trivial = a completed run with >= 3 context switches between client and '
         'runner; distinct = distinct context-switch sequences (thread, yield-point kind)')
 COMPONENTS = {'real': ['sismic.runner.AsyncRunner', 'sismic.interpreter.Interpreter (queue, execute_once, listeners)', 'real OS threads (one runs at a time)'],
-              'stub': ['threading.Event / threading.Thread and time.time / time.sleep as seen by sismic/runner/runner.py (simulator-owned fakes)',
+              'stub': ['threading.Event / Thread / Lock / RLock (waits and joins honour their timeout; a Lock is not re-entrant) and time.time / time.sleep as seen by sismic/runner/runner.py (simulator-owned fakes)',
                        'interpreter clock reading the simulator virtual time', 'thread scheduling (baton + sys.monitoring LINE pre-emption)']}
 ASSUMPTIONS = ['pre-emption inside C-level list operations cannot happen under the GIL and is not modelled',
                'LINE-level pre-emption is restricted to the queue code of Interpreter and the methods of AsyncRunner',
